@@ -72,6 +72,30 @@ def main(tier: str) -> int:
             if got <= pop:
                 add({"op": "ideal_cuts", "p": pop, "n": got}, ("ideal_cuts", {"pop_size": pop, "n": got}, cuts))
 
+    # ---- n_jobs is normalised the same way by every optimizer class (0 rejected, negative counted back from the CPUs, capped by pop_size)
+    import thefittest.optimizers as O_
+    import ea_trace as T_
+    for cn_ in T_.ALL:
+        for nj in (0, -1, -3, -(cpu + 5), 2, 50):
+            cfg_ = dict(pop_size=8 if cn_ not in T_.GP else 7, iters=2, objective="onemax" if cn_ not in T_.FLOAT else "sphere", seed=1)
+            rec_ = T_.Recorder(cn_, cfg_)
+            try:
+                o_, kw_ = T_.build(cn_, cfg_, rec_)
+                kw_ = dict(kw_, n_jobs=nj)
+                got_ = int(getattr(O_, cn_)(**kw_)._n_jobs)
+            except ValueError:
+                got_ = None
+            except Exception as e:  # noqa
+                got_ = repr(e)[:80]
+            pop_ = cfg_["pop_size"]
+            want_ = None if nj == 0 else (min(max(cpu + 1 + nj, 1), pop_) if nj < 0 else min(nj, pop_))
+            chk.count("norm_jobs_classes")
+            chk.case(("norm_jobs_class", cn_, nj))
+            if got_ != want_:
+                chk.fail("n_jobs = 0 is not rejected" if nj == 0 else "normalised n_jobs outside [1, pop_size]" if not isinstance(got_, int) or not (1 <= got_ <= pop_) else
+                         "n_jobs is not normalised as documented (negative values count back from the number of CPUs)",
+                         {"optimizer": cn_, "pop_size": pop_, "n_jobs": nj, "cpu": cpu, "got": got_, "expected": want_}, {"fn": "_get_n_jobs", "clause": "classes", "negative": nj < 0})
+                break
     # ---- the tree-based family: populations are object arrays of trees of very different sizes; the chunks are still contiguous,
     #      non-empty, order-preserving and cover every tree once
     import treelib as TLb
@@ -139,6 +163,13 @@ def main(tier: str) -> int:
         ("SHADE+g2p", SHADE, dict(fitness_function=W.sphere_delayed, genotype_to_phenotype=W.g2p_scale, iters=4, pop_size=7, left_border=-2.0, right_border=2.0, num_variables=2, minimization=True)),
         ("GeneticAlgorithm+longer init_population", GeneticAlgorithm, dict(fitness_function=W.onemax_delayed, iters=3, pop_size=8, str_len=10,
                                                                            init_population=(np.arange(130).reshape(13, 10) % 3 == 0).astype(np.byte))),
+        ("GeneticAlgorithm+g2p+both argument dictionaries", GeneticAlgorithm,
+         dict(fitness_function=W.weighted_sum, fitness_function_args={"weights": np.arange(1.0, 11.0), "scale": np.array(0.5), "table": np.ones((2, 2))},
+              genotype_to_phenotype=W.g2p_shift, genotype_to_phenotype_args={"shift": np.linspace(-1.0, 1.0, 10)}, iters=3, pop_size=9, str_len=10)),
+        ("DifferentialEvolution+g2p+both argument dictionaries", DifferentialEvolution,
+         dict(fitness_function=W.weighted_sum, fitness_function_args={"weights": np.array([3.0, -1.0, 2.0]), "scale": np.array(2.0), "table": np.zeros((1, 1))},
+              genotype_to_phenotype=W.g2p_shift, genotype_to_phenotype_args={"shift": np.array([0.5, -0.5, 0.25])}, iters=3, pop_size=8, left_border=-2.0, right_border=2.0,
+              num_variables=3, minimization=True)),
         ("SHAGA+g2p", SHAGA, dict(fitness_function=W.sphere_delayed, genotype_to_phenotype=W.g2p_scale, iters=3, pop_size=7, str_len=10)),
     ]
     if tier == "quick":
@@ -150,7 +181,12 @@ def main(tier: str) -> int:
         base = run(cls, kw, 1, 0)
         for nj in njs:
             for delays in ((1, 2) if tier == "quick" else (1, 2, 3)):
-                got = run(cls, kw, nj, delays)
+                try:
+                    got = run(cls, kw, nj, delays)
+                except Exception as e:  # noqa
+                    chk.fail("a run with n_jobs > 1 raises although the run with n_jobs = 1 completes",
+                             {"optimizer": name, "n_jobs": nj, "delay_pattern": delays, "error": (type(e).__name__ + ": " + str(e))[:200]}, {"fn": "parallel_run", "clause": "raises"})
+                    break
                 chk.count("parallel_runs")
                 chk.case(("run", name, nj, delays))
                 if got != base:
